@@ -24,6 +24,6 @@ def run(ctx):
     if not q:
         C += PC.text_holes(ctx, own, ks, vis=(4,), timeout=2400)
     C += PC.spell_holes(ctx, own, range(1, len(P.SPELL), 2) if q else range(len(P.SPELL)))
-    C += PC.label_holes(ctx, own, [P.skel('def f(a, /'), P.skel('def f():'), P.skel('if a:\n  b\nelse:')] if q else range(len(P.SKELS)), vis=(4,) if q else (0, 4, 8))
+    C += PC.label_holes(ctx, own, [P.skel('def f(a, /'), P.skel('def f():'), P.skel('if a:\n  b\nelse:'), 2] if q else range(len(P.SKELS)), vis=(4,) if q else (0, 4, 8))
     C += PC.label_holes(ctx, own, [P.skel('def f[T')], vis=(8,))
     xh.run_conditions(ctx, C)
